@@ -74,6 +74,8 @@ Definition pandas_calls : list (string * list string) :=
 Section Exec.
 (* the sorting routine behind DataFrame.sort_values (Model/PdPrim.v): any function returning a sorted permutation *)
 Variable srt : sorter.
+(* the order in which pandas.merge lists the rows of an INNER join (Model/PdPrim.v): any rearrangement *)
+Variable arr : arranger.
 
 (* ------------------------------------------------------------------ shared helpers of the executor *)
 (* clean_copy / drop_indices *)
@@ -428,7 +430,8 @@ Definition jstep (sfx : string) (acc : option table) (c : string) : option table
        pd_del (sapp c sfx) r                                  (* res.drop(c + right_suffix, axis=1) *)
   else Some r.
 
-Definition px_join (declared : list string) (on_a on_b : list string) (jt : jointype) (left right : table) : option table :=
+Definition px_join_gen (merge : merge_how -> table -> table -> list string -> list string -> string -> option table)
+    (declared : list string) (on_a on_b : list string) (jt : jointype) (left right : table) : option table :=
   if Nat.eqb (nrows left) 0 && Nat.eqb (nrows right) 0
   then Some (pd_empty_frame declared)                                      (* pd.DataFrame({k: [] for k in op.columns_produced()}) *)
   else
@@ -449,12 +452,16 @@ Definition px_join (declared : list string) (on_a on_b : list string) (jt : join
     right <- (match null_key with Some nk => pd_set_col nk (marker_right null_right) right | None => Some right end) ;;
     let on_a'' := match null_key with Some nk => on_a' ++ [nk] | None => on_a' end in
     let on_b'' := match null_key with Some nk => on_b' ++ [nk] | None => on_b' end in
-    res <- pd_merge (how_of jt) left right on_a'' on_b'' sfx ;;
+    res <- merge (how_of jt) left right on_a'' on_b'' sfx ;;
     let res := clean_copy res in                                            (* drop_indices *)
     res <- (match scratch with Some s => pd_del s res | None => Some res end) ;;
     res <- (match null_key with Some nk => pd_del nk res | None => Some res end) ;;
     res <- fold_left (jstep sfx) common_cols (Some res) ;;
     Some (clean_copy res).
+(* the step: pandas.merge with its unspecified inner row order *)
+Definition px_join_with := px_join_gen (pd_merge_with arr).
+(* the same with the inner rows left-major (what the proofs of part 5 analyse; px_join_with arr returns a row permutation of it) *)
+Definition px_join := px_join_gen pd_merge.
 
 (* ------------------------------------------------------------------ _concat_rows_step *)
 Definition px_concat (idc : option string) (an bn : string) (left right : table) : option table :=
@@ -529,10 +536,11 @@ Fixpoint pexec_gen (q : pquirks) (p : op) (e : env) : option table :=
   | ORename s m => res <- pexec_gen q s e ;; px_rename m res
   | OMapCols s m dels => res <- pexec_gen q s e ;; px_map_cols m dels res
   | OOrder s cs rev lim => res <- pexec_gen q s e ;; px_order cs rev lim res
-  | OJoin a b on_a on_b jt => l <- pexec_gen q a e ;; r <- pexec_gen q b e ;; px_join (declared_cols p) on_a on_b jt l r
+  | OJoin a b on_a on_b jt => l <- pexec_gen q a e ;; r <- pexec_gen q b e ;; px_join_with (declared_cols p) on_a on_b jt l r
   | OConcat a b idc an bn => l <- pexec_gen q a e ;; r <- pexec_gen q b e ;; px_concat idc an bn l r
   end.
 End Exec.
 
-(* the executor with the stable sort: what the correspondence runs *)
-Definition pexec : pquirks -> op -> env -> option table := pexec_gen stable_sorter.
+(* the executor with the stable sort and the left-major inner merge: what the correspondence runs (rows compared as a multiset
+   where pandas' choices are not functions of the arguments: tied single-key sorts, inner merges) *)
+Definition pexec : pquirks -> op -> env -> option table := pexec_gen stable_sorter id_arranger.
